@@ -93,7 +93,7 @@ fn words(rng: &mut Rng, hostile: bool, lo: usize, hi: usize) -> Vec<GI> {
 
 pub fn target(rng: &mut Rng, ctx: &Ctx) -> String {
     if ctx.targets.is_empty() || rng.chance(1, 8) {
-        rng.pick(&["missing", "nope/none", "../up", "http://example.com", "https://e.org/a.md", "mailto:a@b.c", "HTTP://UP.CASE", "x.md", "./a", "a.md"]).to_string()
+        rng.pick(&["missing", "nope/none", "../up", "http://example.com", "https://e.org/a.md", "mailto:a@b.c", "HTTP://UP.CASE", "x.md", "./a", "a.md", "пропажа", "日本語の資料", "abcdéfgh"]).to_string()
     } else {
         let t = rng.pick(ctx.targets).clone();
         if rng.chance(1, 6) { format!("{}.md", t) } else { t }
@@ -338,7 +338,7 @@ pub fn document_src(bs: &[GB], st: &Style, front_matter: Option<&str>) -> String
 
 // ------------------------------------------------------------------ libraries
 
-pub const KEYS: &[&str] = &["a", "b", "c", "d/a", "d/b", "d/e/c", "e/a", "n1", "n2", "d/e/f", "x y", "ü"];
+pub const KEYS: &[&str] = &["a", "b", "c", "d/a", "d/b", "d/e/c", "e/a", "n1", "n2", "d/e/f", "заметки", "d/日本語ノート", "notes-éé", "x y", "ü"];
 
 /// url a note in directory `dir` writes to reach `key` (same algorithm the users follow: relative)
 pub fn rel_url(key: &str, dir: &str) -> String {
@@ -356,7 +356,7 @@ pub struct Note {
 
 pub fn library(rng: &mut Rng, hostile: bool, max_notes: usize, nested: bool) -> Vec<Note> {
     let n = rng.range(1, max_notes);
-    let pool: Vec<&str> = if nested { KEYS[..10].to_vec() } else { vec!["a", "b", "c", "n1", "n2", "k", "m"] };
+    let pool: Vec<&str> = if nested { KEYS[..13].to_vec() } else { vec!["a", "b", "c", "n1", "n2", "k", "m", "заметки", "notes-éé"] };
     let mut keys: Vec<String> = vec![];
     while keys.len() < n {
         let k = rng.pick(&pool).to_string();
